@@ -18,6 +18,7 @@ package mapping
 import (
 	"fmt"
 	"math"
+	"net/textproto"
 	"reflect"
 	"sort"
 	"strconv"
@@ -311,7 +312,10 @@ func c08Exec(op []string) string {
 			return "bad-op"
 		}
 		var opts []UnmarshalOption
-		if cfg.Int("fs", 0) == 1 {
+		if key == "header" {
+			// rest/internal/encoding: NewUnmarshaler("header", WithStringValues(), WithCanonicalKeyFunc(CanonicalMIMEHeaderKey))
+			opts = append(opts, WithStringValues(), WithCanonicalKeyFunc(textproto.CanonicalMIMEHeaderKey))
+		} else if cfg.Int("fs", 0) == 1 {
 			opts = append(opts, WithStringValues(), WithOpaqueKeys())
 		}
 		if cfg.Int("fa", 0) == 1 {
@@ -742,6 +746,9 @@ func c08PrimInput(r *verifh.Rng, f *c08Field, p string, asString bool) string {
 	}
 }
 
+// header mode: the keys of the (top-level) input are canonical MIME header keys, as net/http delivers them
+var c08Header bool
+
 func c08GenInput(r *verifh.Rng, t *c08Ty, sb *strings.Builder, fsAll, fa bool, pPresent int) {
 	sb.WriteString(" {")
 	// presence, then (mostly) repaired so that optional=dep / optional=!dep hold
@@ -770,6 +777,9 @@ func c08GenInput(r *verifh.Rng, t *c08Ty, sb *strings.Builder, fsAll, fa bool, p
 		key := f.key
 		if r.Chance(1, 50) {
 			key = f.name
+		}
+		if c08Header && !r.Chance(1, 40) {
+			key = textproto.CanonicalMIMEHeaderKey(key)
 		}
 		sb.WriteString(" " + key + " ")
 		if r.Chance(1, 25) {
@@ -843,6 +853,9 @@ func c08Gen(r *verifh.Rng) []verifh.Section {
 				"u key=json fs=0 fa=0 T { F f64 t:f,string,range=[1:5] } I { f s:NaN }",
 				"u key=form fs=1 fa=1 T { F f64 t:f,range=[1:5] } I { f [ s:nan ] }",
 				"u key=form fs=1 fa=1 T { F str t:a,optional } I { a null }",
+				"u key=header fs=1 fa=0 T { A str t:a,optional B str t:b,optional=!a } I { A s:1 B s:2 }",
+				"u key=header fs=1 fa=0 T { A str t:a,optional B str t:b,optional=!a } I { A s:1 }",
+				"u key=header fs=1 fa=0 T { A str t:x-a,optional B int t:b,optional=x-a,range=[1:5] } I { X-A s:1 B s:9 }",
 				"u key=json fs=0 fa=0 T { M map * int t:m } I { m { k n:1 } }",
 				"u key=json fs=0 fa=0 T { M map [] int t:m } I { m { k null } }")
 		}
@@ -850,7 +863,7 @@ func c08Gen(r *verifh.Rng) []verifh.Section {
 		for k := 0; k < ntypes; k++ {
 			mode := r.Intn(10)
 			cfg := "key=json fs=0 fa=0"
-			fsAll, fa := false, false
+			fsAll, fa, hdr := false, false, false
 			switch {
 			case mode == 0:
 				cfg, fsAll, fa = "key=form fs=1 fa=1", true, true
@@ -858,6 +871,8 @@ func c08Gen(r *verifh.Rng) []verifh.Section {
 				cfg, fsAll = "key=path fs=1 fa=0", true
 			case mode == 2:
 				cfg = "key=key fs=0 fa=0"
+			case mode == 3:
+				cfg, fsAll, hdr = "key=header fs=1 fa=0", true, true
 			}
 			t := c08GenType(r, 0, fsAll)
 			var tb strings.Builder
@@ -865,7 +880,9 @@ func c08Gen(r *verifh.Rng) []verifh.Section {
 			ninputs := r.Range(3, 10)
 			for j := 0; j < ninputs; j++ {
 				var ib strings.Builder
+				c08Header = hdr
 				c08GenInput(r, t, &ib, fsAll, fa, r.Pick(50, 75, 90, 100))
+				c08Header = false
 				in := strings.TrimSpace(ib.String())
 				if r.Chance(1, 60) {
 					in = r.PickS("[ ]", "n:1", "null", "s:x", "{ }")
